@@ -10,6 +10,8 @@ CONSTANTS
   ViewDepth = 2
   Deviations <- DevU
   EmitMode = "none"
+  ReqKinds <- DevKinds
+  PosClasses <- DevPos
 INIT Init
 NEXT Next
 CHECK_DEADLOCK FALSE
